@@ -124,13 +124,30 @@ int __wrap_timerfd_settime(int fd, int flags, const struct itimerspec *new_value
 
 static int mod_index(const m_mod_t *m) { for (int i = 0; i < MAXMOD; i++) if (names[i][0] && m && m_mod_name(m) == names[i]) return i; return -1; }
 static int ufd_id(int fd) { for (int i = 0; i < NUFD; i++) if (ufd_r[i] == fd) return i; return -1; }
+/* M_SRC_DUP: the library polls a duplicate of the user's descriptor and keys / reports the source by that fresh number. The trace names it
+   2^32 * (ordinal of the duplicate) + the user's descriptor id, the model's dup_key */
+#define NDUP 4096
+static int dup_ord[NDUP], dup_orig[NDUP], dup_count;
+int __real_dup(int fd);
+int __wrap_dup(int fd) {
+    int r = __real_dup(fd); int u = ufd_id(fd);
+    if (r >= 0 && r < NDUP && u >= 0) { dup_ord[r] = ++dup_count; dup_orig[r] = u; }
+    else if (r >= 0 && r < NDUP) dup_ord[r] = 0;
+    return r;
+}
+static long long fd_key(int fd) {
+    int u = ufd_id(fd); if (u >= 0) return u;
+    if (fd >= 0 && fd < NDUP && dup_ord[fd] > 0) return 4294967296LL * dup_ord[fd] + dup_orig[fd];
+    return -1;
+}
+static int fd_user(int fd) { int u = ufd_id(fd); if (u >= 0) return u; return (fd >= 0 && fd < NDUP && dup_ord[fd] > 0) ? dup_orig[fd] : -1; }
 static int kind_num(const ev_src_t *s) { return (int)s->type; }
 static unsigned long long path_key(const char *p);
 static long pid_key_of(pid_t pid);
 static unsigned long long src_key(const ev_src_t *s) {
     switch (s->type) {
     case M_SRC_TYPE_PS: return 0;
-    case M_SRC_TYPE_FD: return (unsigned long long)ufd_id(s->fd_src.fd);
+    case M_SRC_TYPE_FD: return (unsigned long long)fd_key(s->fd_src.fd);
     case M_SRC_TYPE_TMR: return s->tmr_src.its.ns;
     case M_SRC_TYPE_SGN: return s->sgn_src.sgs.signo;
     case M_SRC_TYPE_TASK: return (unsigned long long)s->task_src.tid.tid;
@@ -226,8 +243,8 @@ static void handler_common(m_mod_t *self, const m_queue_t *const evts, int h) {
             data = 0; for (int i = 0; i < 4096 && ps->data; i++) if (payload[i] == ps->data) { data = i; break; }
             kind = 0; break; }
         case M_SRC_TYPE_FD: {
-            key = ufd_id(e->fd_evt->fd); char c;
-            if (key >= 0 && read(ufd_r[key], &c, 1) != 1) { /* level triggered: nothing to read */ }
+            key = fd_key(e->fd_evt->fd); char c; int u = fd_user(e->fd_evt->fd);
+            if (u >= 0 && read(ufd_r[u], &c, 1) != 1) { /* level triggered: nothing to read */ }
             break; }
         case M_SRC_TYPE_TMR: key = (long)e->tmr_evt->ns; break;
         case M_SRC_TYPE_SGN: key = e->sgn_evt->signo; break;
@@ -515,7 +532,7 @@ static int exec_call(proc_t *pr, int idx, m_evt_t **cur, int ncur) {
     else if (!strcmp(o, "pill")) out("r%d", m_mod_ps_poisonpill(H(a), H(L(c->tok[2]))));
     else if (!strcmp(o, "srcreg")) {
         m_src_types t = ktype(c->tok[2]); unsigned long long key = U(c->tok[3]);
-        m_src_flags fl = prio_flags(L(c->tok[4])) | (L(c->tok[5]) ? M_SRC_ONESHOT : 0) | (L(c->tok[6]) ? M_SRC_FD_AUTOCLOSE : 0);
+        m_src_flags fl = prio_flags(L(c->tok[4]) % 8) | (L(c->tok[4]) >= 8 ? M_SRC_DUP : 0) | (L(c->tok[5]) ? M_SRC_ONESHOT : 0) | (L(c->tok[6]) ? M_SRC_FD_AUTOCLOSE : 0);
         void *up = (void *)(uintptr_t)U(c->tok[7]); int r = -EINVAL;
         switch (t) {
         case M_SRC_TYPE_FD: r = m_mod_src_register_fd(H(a), key < NUFD ? ufd_r[key] : -1, fl, up); break;
